@@ -194,8 +194,10 @@ def random_script(rng, shape, length):
             if a >= n1:
                 a = rng.randrange(1, n1 - 1)
             out.append({"a": "foreign", "m": rng.choice(clients + ["stranger"]), "ip": a, "ips": sy})
-        elif x < 0.98:
+        elif x < 0.975:
             out.append({"a": "purge"})
+        elif x < 0.985:
+            out.append({"a": "age"})
         else:
             out.append({"a": rng.choice(["restart", "restart", "reload", "reload", "reconf"])})
     return out
@@ -228,7 +230,9 @@ def lifecycle_script(rng, shape, length):
         req = (NOA, "lit") if u < 0.5 else (NOA, "ip:" + k) if u < 0.8 else (rng.choice(other), "lit")
         out.append({"a": "discover", "k": k, "m": m, "req": req[0], "reqs": req[1], "xid": x, "prl": prl})
         toggle(m)
-        if rng.random() < 0.15:                                           # retransmitted DISCOVER
+        if rng.random() < 0.15:
+            out.append({"a": "age"})                                      # the offer is not taken up in time
+        if rng.random() < 0.2:                                            # retransmitted DISCOVER
             out.append({"a": "discover", "k": k, "m": m, "req": req[0], "reqs": req[1], "xid": x, "prl": prl})
             toggle(m)
         x2 = rng.choice([y for y in ["x1", "x2", "x3", "x4"] if y != x]) if stale_xid else x
